@@ -7,4 +7,4 @@ From CffVerif Require Import BuildTagModel SchedModel.
 
 Extraction Language OCaml.
 Extraction "cffmodel.ml" invert eval flip_cff has_cff gen_filename splice
-  init step run replay is_final wf_cfg_b event_eqb.
+  initc init stepc step run replay is_final wf_cfg_b event_eqb.
